@@ -18,7 +18,7 @@ pub fn def() -> PropDef {
     gen,
     check,
     panic_policy: PanicPolicy::Count,
-    rule: "random triples (A,B,C) of ASCII source trees with consistent leaf maps; for each triple 12 differently built trees are compared pairwise-with-reference on text and on the attribution of every character through map() (file, line, column, name; file and line for columns=false): flat vs typed-nested vs boxed-nested vs added-later concatenation, single-child concat, neutral empty sources, ReplaceSource without / with only empty replacements, CachedSource, boxing; non-trivial = the reference tree has >= 1 mapped and >= 1 unmapped character; distinct = case fingerprint",
+    rule: "random triples (A,B,C) of ASCII source trees with consistent leaf maps; for each triple 15 differently built trees (two of them CachedSource wrappers with a history: cache filled by streaming, or by an earlier map() of the enclosing ConcatSource) are compared pairwise-with-reference on text and on the attribution of every character through map() (file, line, column, name; file and line for columns=false): flat vs typed-nested vs boxed-nested vs added-later concatenation, single-child concat, neutral empty sources, ReplaceSource without / with only empty replacements, CachedSource, boxing; non-trivial = the reference tree has >= 1 mapped and >= 1 unmapped character; distinct = case fingerprint",
     cases: |t| match t {
       Tier::Quick => 40_000,
       Tier::Thorough => 500_000,
@@ -65,6 +65,26 @@ fn view(src: &BoxSource) -> View {
     full: attr_of_map(&text, m1.as_ref()),
     lines: attr_lines_of_map(&text, m0.as_ref()),
     text,
+  }
+}
+
+/// Calls made on the variant before it is compared (the law says a
+/// CachedSource behaves like the wrapped source, whatever was asked before).
+fn warm_up(law: &str, src: &BoxSource, obs: &mut Obs) {
+  use rspack_sources::Source;
+  match law {
+    "cached_after_stream" => {
+      for columns in [true, false] {
+        let _ = crate::record::record(src, &MapOptions::new(columns));
+      }
+      obs.count("warm_up_calls", 2);
+    }
+    "cached_inside_concat_second_map" => {
+      let _ = src.map(&MapOptions::new(true));
+      let _ = src.map(&MapOptions::new(false));
+      obs.count("warm_up_calls", 2);
+    }
+    _ => {}
   }
 }
 
@@ -157,6 +177,10 @@ pub fn variants(a: &Spec, b: &Spec, c: &Spec, empties: &[u32]) -> Vec<(&'static 
     ("replace_empty_ops", a.clone(), Spec::replace(a.clone(), empty_ops)),
     ("cached", flat.clone(), Spec::cached(flat.clone())),
     ("boxed", flat.clone(), Spec::boxed(flat.clone())),
+    // the wrapper with a history: its cache filled by streaming / by an
+    // enclosing map() before it is asked (see `warm_up`)
+    ("cached_after_stream", flat.clone(), Spec::cached(flat.clone())),
+    ("cached_inside_concat_second_map", flat.clone(), cat(vec![Spec::cached(cat(vec![a.clone(), b.clone()], How::NewBoxed)), c.clone()], How::NewBoxed)),
   ]
 }
 
@@ -172,8 +196,15 @@ fn check(case: &Value, obs: &mut Obs) {
     if only.is_some_and(|o| o != law) {
       continue;
     }
+    if law.starts_with("cached_") && law != "cached" && [&a, &b, &c].iter().any(|s| s.has_cached_under_replace()) {
+      // answers of a CachedSource beneath a ReplaceSource depend on the call
+      // history (known finding under C03): no history-laden law instance
+      continue;
+    }
     let r = view(&build_box(&reference));
-    let o = view(&build_box(&other));
+    let o = build_box(&other);
+    warm_up(law, &o, obs);
+    let o = view(&o);
     if let Ok(f) = &r.full {
       for x in f.iter().flatten() {
         if matches!(x, At::Un) {
